@@ -7,7 +7,7 @@ the `expected` argument of a compare-exchange, or the atomic call itself - the c
 polarity.canon: negation, ==/!= and mirrored comparisons normalised) is computed with the snapshot variable
 renamed to `$<member>` (so renaming a local is silent) and helper calls shown with their arguments
 (`ref_count($parentOp_)`).  tables/guards.json freezes the set of atoms per class (file + record), so moving a
-guard between member functions of one class is silent.
+guard between member functions or classes of one algorithm (its detail namespace) is silent.
 
 Violation: an atom of the frozen set no longer occurs anywhere in its class - the guard was dropped, or it now
 tests a different quantity / constant (the replacing atoms are listed).  Additional guards are silent.  A class
@@ -73,7 +73,10 @@ def guard_atoms(F):
         var2, eid2, ev_by_eid = _snapshots(f)
         if not var2 and not eid2: continue
         G = Graph(f)
-        cls = norm_fn(f.get('record') or (f.get('parent_fn') or '').split('@')[0].rsplit('::', 1)[0] or f['qname'].rsplit('::', 1)[0])
+        # key: the algorithm's detail namespace (family), so that a guard moved between the classes of one algorithm
+        # (nested callback class -> operation class, helper extraction) is silent
+        from ..facts import family_of
+        cls = family_of(norm_fn(f.get('record') or (f.get('parent_fn') or '').split('@')[0].rsplit('::', 1)[0] or f['qname'].rsplit('::', 1)[0]))
         for t, e in G.ev.items():
             if e.get('k') != 'term' or e.get('cond') is None: continue
             if (e.get('macro') or '').startswith(('UNIFEX_ASSERT', 'assert')): continue
